@@ -528,6 +528,11 @@ class ExprMixin:
             f = z3.Function("str_contains", IntS, IntS, z3.BoolSort())
             general = f(V.s(cont.z), V.s(self.to_z(st, item)))
             lit = self.literal_of(cont) if k == "str" else None
+            if lit is not None and len(INTERN.strings) <= 400:
+                # ground facts: which of the literal strings known so far are substrings of this literal
+                for t_, id_ in list(INTERN.strings.items()):
+                    if len(t_) != 1:
+                        st.assume(f(V.s(cont.z), z3.IntVal(id_)) == z3.BoolVal(t_ in lit))
             if lit is not None and hint_kind(item.th) == "str":
                 # a one-character string is contained in a literal iff its code point is one of the literal's
                 isid = V.s(item.z)
